@@ -2,7 +2,7 @@
 import p_seqprops
 
 PROPS = ["C07"]
-PROFILES = [(3, {"script_prob": 0.9, "share_fd_prob": 0.03}), (1, {})]
+PROFILES = [(3, {"script_prob": 0.9, "share_fd_prob": 0.03, "gap_frac": 0.15}), (1, {})]
 
 
 def main(tier, seed):
